@@ -225,6 +225,11 @@ class CompGen:
         else:
             x = self.add_base(); v = self.view(x, False)
             items, nucs, segs, declared = [{"t": "ref", "name": x, "star": False}], v, [v], None
+        # the idiom of naming a concatenation after its parts: `sequence toe-br = toe br` (a name whose hyphen-separated pieces are
+        # themselves defined names)
+        if (len(items) in (2, 3) and all(it["t"] == "ref" and not it["star"] and "-" not in it["name"] for it in items)
+                and self.rng.random() < 0.5 and "-".join(it["name"] for it in items) not in self.seqs):
+            name = "-".join(it["name"] for it in items)
         self.stmts.append({"k": "seq", "name": name, "items": [{k: v for k, v in it.items() if not k.startswith("_")} for it in items], "len": declared})
         self.seqs[name] = {"len": len(nucs), "sup": True, "nucs": nucs, "segs": segs}
         self.order.append(name)
@@ -730,3 +735,25 @@ def set_component(b, relpath, ast, rng):
     for k in b.inst_keys.get(relpath, []):
         b2.files[k] = strip_private(ast)
     return b2
+
+
+def both_orientation_bundle(rng):
+    """a template that lists one sequence as input and as starred output (`x -> x*`), instantiated with ONE signal on both sides
+    (`s* -> s*`: the port is bound to the signal once complementary and once equal), inside a system that is itself used as a
+    component (1-2 levels).  Texts only (`directed`): judged by oracles on the real output, not sent to the model."""
+    t = CompGen(rng, name="T", size=3, nports=(1, 1), port_lens=(6,)).build()
+    t["outputs"] = [dict(t["inputs"][0], star=not t["inputs"][0]["star"], struct=None)]
+    b = Bundle()
+    b.texts["T.comp"] = render_comp(t, rng)
+    s1 = rng.choice(["", "*"])
+    b.texts["G.sys"] = "declare system G: s%s -> \nimport T\ncomponent g = T: s* -> s*\ncomponent h = T: s -> u\n" % s1
+    depth = rng.randint(1, 2)
+    if depth == 1:
+        b.texts["Top.sys"] = "declare system Top:  -> \nimport G\ncomponent a = G: w -> \ncomponent b = G: w%s -> \n" % rng.choice(["", "*"])
+    else:
+        b.texts["Mid.sys"] = "declare system Mid: p -> \nimport G\ncomponent i = G: p%s -> \n" % rng.choice(["", "*"])
+        b.texts["Top.sys"] = "declare system Top:  -> \nimport Mid\ncomponent m = Mid: w -> \ncomponent n = Mid: w -> \n"
+    b.entry = "Top"
+    b.includes = []
+    b.directed = True
+    return b
